@@ -52,6 +52,7 @@ pub fn generate_sel(seed: u64, tier: &str, sink: &mut Sink, only_refusal_bodies:
             body: BodyR::Text(SECRET_BODY.into()),
             post: vec![],
             hops: vec![(segs, None)],
+            plain_tunnel: false,
         };
         let obs = run_send(&case);
         let head_complete = reply_kind == "valid";
@@ -159,6 +160,9 @@ pub fn generate_sel(seed: u64, tier: &str, sink: &mut Sink, only_refusal_bodies:
         }
         return;
     }
+    // redirect chains whose https hops are tunnelled (three in four with the TLS layer left out, so that
+    // what is written inside every tunnel is seen): nothing of the proxy's inside, the hop's own Host
+    crate::p_c09::generate_chains(seed ^ 0xC12C, if thorough { 2000 } else { 200 }, true, true, sink);
     // all statuses 100..599 with a small body (one origin/proxy combination each, rotating)
     let step = if thorough { 1 } else { 7 };
     let mut k = 0;
